@@ -29,6 +29,10 @@ from ..run import run as sh, pmap, Scratch, ASAN_ENV
 LEVEL = "fault_enumeration"
 
 KINDS = ("int", "string", "bool", "struct")
+# every element type an array can hold: + float, u8 (byte buffers), nested arrays, enum constants (array<Enum> is not
+# readable - the type checker sees its elements as structs - so enum values are stored the way programs do it, in array<int>)
+NEW_KINDS = ("float", "u8", "nested", "enum")
+ALL_KINDS = KINDS + NEW_KINDS
 CONS = ("literal", "pushed")
 OPS = ("at", "array_set", "array_remove_at", "array_pop")
 ENGINES = ("native", "vm", "nano_vm", "eval")
@@ -37,7 +41,11 @@ LENGTHS = tuple(range(0, 9))
 I64MAX = (1 << 63) - 1
 I64MIN = -(1 << 63)
 
-TYPE = {"int": "int", "string": "string", "bool": "bool", "struct": "P"}
+TYPE = {"int": "int", "string": "string", "bool": "bool", "struct": "P", "float": "float", "u8": "u8",
+        "nested": "array<int>", "enum": "int"}
+DECL = {"struct": "struct P { x: int, y: int }\n", "enum": "enum Color { Red, Green, Violet }\n"}
+U8_SRC = "abcdefghijklmnopqrstuvwxyz"
+ENUMS = ("Color.Red", "Color.Green", "Color.Violet")
 
 
 # ---------------------------------------------------------------------------------------------------------
@@ -47,7 +55,12 @@ TYPE = {"int": "int", "string": "string", "bool": "bool", "struct": "P"}
 # an element; "emptied_pop" / "emptied_remove": n pushes, then emptied again by n in-range pops / removals at index 0
 EMPTIED = ("emptied_pop", "emptied_remove")
 # where the access sits (VM engines; the program shape around the access):
-PLACES = ("main", "nested", "loop", "match", "arg", "cond", "global_call", "global_direct")
+# discard = statement position, value thrown away; discard_arg = argument of a call whose value is thrown away;
+# helper_void = in a void helper function; helper_discard = in a helper that returns the value, which the caller drops;
+# enum_index = the index is an enum-typed parameter (ordinal >= length)
+PLACES = ("main", "nested", "loop", "match", "arg", "cond", "global_call", "global_direct",
+          "discard", "discard_arg", "helper_void", "helper_discard", "enum_index")
+VALUE_OPS = ("at", "array_get", "array_pop")
 GLOBAL_PLACES = ("global_call", "global_direct")
 
 
@@ -56,10 +69,13 @@ class Cell:
     done before the access; repush = elements pushed after that (controls of emptied arrays); idx = index used by the
     access (None for array_pop); cls = index class; control = the access is in range; place = where the access sits."""
     __slots__ = ("engine", "op", "kind", "cons", "n", "idx", "cls", "prepops", "prerem", "repush", "control", "group",
-                 "place")
+                 "place", "env")
 
     def __init__(self, engine, op, kind, cons, n, idx, cls, prepops=0, control=False, group=None, place="main",
-                 prerem=0, repush=0):
+                 prerem=0, repush=0, env=False):
+        # env: the index reaches the program through the environment (C08_IDX), so that one compiled program serves a
+        # whole family of indices (capacity-band grid)
+        self.env = env
         self.engine, self.op, self.kind, self.cons, self.n = engine, op, kind, cons, n
         self.idx, self.cls, self.prepops, self.control = idx, cls, prepops, control
         self.prerem, self.repush, self.place = prerem, repush, place
@@ -68,7 +84,7 @@ class Cell:
 
     def ident(self):
         return (self.engine, self.place, self.op, self.kind, self.cons, self.n, self.prepops, self.prerem, self.repush,
-                self.idx)
+                self.idx, self.env)
 
     def name(self):
         pre = ""
@@ -78,7 +94,7 @@ class Cell:
             pre += "-%drem" % self.prerem
         if self.repush:
             pre += "+%dpush" % self.repush
-        return "%s%s|%s|%s|%s|n=%d%s|i=%s" % (self.engine, "" if self.place == "main" else "@" + self.place, self.op,
+        return "%s%s|%s|%s|%s|n=%d%s|i=%s" % (self.engine, ("@band" if self.env else "") if self.place == "main" else "@" + self.place, self.op,
                                               self.kind, self.cons, self.n, pre, "-" if self.idx is None else self.idx)
 
     def content(self):
@@ -107,6 +123,10 @@ def applicable(place, op, cons):
         return False                      # array_set yields no value that could be passed on
     if place == "global_direct":
         return op != "array_set" and cons in ("literal", "never")
+    if place in ("discard", "discard_arg", "helper_discard"):
+        return op in VALUE_OPS            # the others are statements anyway (main grid)
+    if place == "enum_index":
+        return op != "array_pop"
     return True
 
 
@@ -139,6 +159,13 @@ def family(engine, place, op, kind, cons, n):
         else:
             C(cons, n + 1, None, "ctl", prepops=n, control=True)
         return cells
+    if place == "enum_index":
+        # the index is an enum constant (ordinals 0..2); only ordinal 0 serves as control: what an in-range enum index
+        # yields is a value question (C01/C02), not this property's
+        for o in range(n, 3):
+            C(cons, n, o, "ord>=len")
+        C(cons if n else "pushed", max(n, 1), 0, "ctl", control=True)
+        return cells
     for cls, i in oob_indices(n):
         C(cons, n, i, cls)
     if n == 0:
@@ -154,7 +181,7 @@ def grid(engine):
     """main placement: all cells (faults + controls) of one engine"""
     cells = []
     for op in OPS:
-        for kind in KINDS:
+        for kind in ALL_KINDS:
             for n in LENGTHS:
                 for cons in (("never",) if n == 0 else CONS):
                     cells += family(engine, "main", op, kind, cons, n)
@@ -173,12 +200,70 @@ def place_grid(engine):
         places = [p for p in places if p not in GLOBAL_PLACES]      # globals are not evaluated by shadow tests
     cells = []
     for place in places:
-        for op in OPS:
-            for kind in KINDS:
-                for cons, n in (("literal", 3), ("pushed", 3), ("never", 0)):
+        for op in OPS + ("array_get",):
+            if op == "array_get" and place not in ("discard", "discard_arg", "helper_void", "helper_discard"):
+                continue
+            for kind in (("int",) if place == "enum_index" else KINDS):
+                variants = (("literal", 3), ("pushed", 3), ("never", 0))
+                if place == "enum_index":
+                    variants = (("literal", 1), ("literal", 2), ("pushed", 2), ("never", 0))
+                for cons, n in variants:
                     if applicable(place, op, cons):
                         cells += family(engine, place, op, kind, cons, n)
     return cells
+
+
+BAND_LENGTHS = (0, 1, 5, 7, 8, 9, 15, 16, 17)      # around the growth boundaries of the array stores (8, 16, 32)
+BAND_OPS = ("at", "array_get", "array_set", "array_remove_at")
+
+
+def band_indices(n):
+    """every index from the length to one past the next capacity (stores start at 8 slots and double); a full store
+    (n == capacity) may or may not have grown already, so its band runs to one past the doubled capacity"""
+    cap = 8
+    while cap < n:
+        cap *= 2
+    out = []
+    hi = cap + 1 if n < cap else 2 * cap + 1
+    for i in range(n, hi + 1):
+        if i == n:
+            cls = "len"
+        elif i < cap:
+            cls = "in-cap"
+        elif i == cap:
+            cls = "cap"
+        elif n < cap:
+            cls = "cap+1"
+        elif i < 2 * cap:
+            cls = "in-2cap"
+        else:
+            cls = "2cap" if i == 2 * cap else "2cap+1"
+        out.append((cls, i))
+    return out
+
+
+def band_grid(engine):
+    """capacity band: one program per (op, kind, construction, length) that takes the index from the environment, run
+    once per index in [length, next capacity + 1]; controls: index 0 and length-1"""
+    cells = []
+    for op in BAND_OPS:
+        for kind in ALL_KINDS:
+            for n in BAND_LENGTHS:
+                for cons in (("never",) if n == 0 else CONS):
+                    grp = ("band", op, kind, cons, n)
+                    for cls, i in band_indices(n):
+                        cells.append(Cell(engine, op, kind, cons, n, i, cls, group=grp, env=True))
+                    if n == 0:
+                        for cc in CONS:
+                            cells.append(Cell(engine, op, kind, cc, 1, 0, "ctl", control=True, group=grp, env=True))
+                    else:
+                        for i in sorted(set([0, n - 1])):
+                            cells.append(Cell(engine, op, kind, cons, n, i, "ctl", control=True, group=grp, env=True))
+    return cells
+
+
+def fam_key(c):
+    return (c.engine, c.op, c.kind, c.cons, c.n)
 
 
 # ---------------------------------------------------------------------------------------------------------
@@ -191,6 +276,14 @@ def elem_src(kind, j):
         return '"s%d"' % j
     if kind == "bool":
         return "true" if j % 2 == 0 else "false"
+    if kind == "float":
+        return "%d.5" % (10 + j)
+    if kind == "u8":
+        return "(at SRC %d)" % j
+    if kind == "nested":
+        return "[%s]" % ", ".join(str(10 + j + t) for t in range(j % 3 + 1))
+    if kind == "enum":
+        return ENUMS[j % 3]
     return "P { x: %d, y: %d }" % (10 + j, 100 + j)
 
 
@@ -199,29 +292,55 @@ def elem_out(kind, j):
         return str(10 + j)
     if kind == "string":
         return "s%d" % j
+    if kind == "float":
+        return "%d.5" % (10 + j)
+    if kind == "u8":
+        return str(ord(U8_SRC[j]))
+    if kind == "nested" or kind == "enum":
+        return str(j % 3 + 1) if kind == "nested" else str(j % 3)
     return "true" if j % 2 == 0 else "false"
 
 
-def new_src(kind, old):
+def _new(kind, old):
+    """(source, printed form) of the value array_set stores; differs from the old element where that is known"""
     if kind == "int":
-        return "77"
+        return "77", "77"
     if kind == "string":
-        return '"new"'
+        return '"new"', "new"
     if kind == "bool":
-        return "false" if (old is not None and old % 2 == 0) else "true"
-    return "P { x: 77, y: 78 }"
+        return ("false", "false") if (old is not None and old % 2 == 0) else ("true", "true")
+    if kind == "float":
+        return "77.25", "77.25"
+    if kind == "u8":
+        return "(at SRC 25)", str(ord(U8_SRC[25]))
+    if kind == "nested":
+        return "[1, 2, 3, 4, 5]", "5"
+    if kind == "enum":
+        return ("Color.Red", "0") if (old is not None and old % 3 == 2) else ("Color.Violet", "2")
+    return "P { x: 77, y: 78 }", "77"
+
+
+def new_src(kind, old):
+    return _new(kind, old)[0]
 
 
 def new_out(kind, old):
-    if kind == "int" or kind == "struct":
-        return "77"
-    if kind == "string":
-        return "new"
-    return "false" if (old is not None and old % 2 == 0) else "true"
+    return _new(kind, old)[1]
 
 
 def val_expr(kind, v):
-    return v + ".x" if kind == "struct" else v
+    if kind == "struct":
+        return v + ".x"
+    if kind == "nested":
+        return "(array_length %s)" % v
+    return v
+
+
+def literal_src(kind, n):
+    """source of an array holding elements 0..n-1 written in one expression"""
+    if kind == "u8" and n > 0:
+        return '(bytes_from_string "%s")' % U8_SRC[:n]
+    return "[%s]" % ", ".join(elem_src(kind, j) for j in range(n))
 
 
 def idx_src(i):
@@ -234,9 +353,9 @@ def _global_direct(cell):
     """the access is the initialiser expression of a top-level `let`; the array is another global"""
     T, k = TYPE[cell.kind], cell.kind
     L = []
-    if k == "struct":
-        L.append("struct P { x: int, y: int }\n")
-    L.append("let mut GA: array<%s> = [%s]" % (T, ", ".join(elem_src(k, j) for j in range(cell.n))))
+    if k in DECL:
+        L.append(DECL[k])
+    L.append("let mut GA: array<%s> = %s" % (T, literal_src(k, cell.n)))
     for p in range(cell.prepops):
         L.append("let GP%d: %s = (array_pop GA)" % (p, T))
     content = cell.content()
@@ -262,24 +381,46 @@ def _global_direct(cell):
     return "\n".join(L) + "\n", [], exp
 
 
+ENV_ARG = '(string_to_int (getenv "C08_IDX"))'
+
+
 def program(cell):
-    """source text, the values the in-range pre-pops print, the lines a control prints between C08:VALUE and C08:AFTER"""
+    """source text, the values the in-range pre-pops print, the lines a control prints between C08:VALUE and C08:AFTER.
+    For env cells the text does not depend on the index (one program per family)."""
     if cell.place == "global_direct":
         return _global_direct(cell)
     T = TYPE[cell.kind]
     k = cell.kind
     place = cell.place
+    op = cell.op
+    ix = "c" if place == "enum_index" else "i"
+    src_line = '    let SRC: array<u8> = (bytes_from_string "%s")' % U8_SRC
     L = []
-    if k == "struct":
-        L.append("struct P { x: int, y: int }\n")
+    if k in DECL:
+        L.append(DECL[k])
+    if place == "enum_index" and k != "enum":
+        L.append(DECL["enum"])
     if place == "match":
         L.append("union U {\n A { v: int },\n B { w: int }\n}\n")
-    if place == "arg":
+    if place in ("arg", "discard_arg"):
         L.append("fn idv(x: %s) -> %s {\n    return x\n}\nshadow idv { assert true }" % (T, T))
         L.append("fn idn(x: int) -> int {\n    return x\n}\nshadow idn { assert true }")
-    L.append("fn t(i: int) -> int {")
+    content = cell.content()
+    n = len(content)
+    i = cell.idx
+    old = content[i] if (cell.control and not cell.env and i is not None) else None
+    read = {"at": "(at a %s)" % ix, "array_get": "(array_get a %s)" % ix, "array_pop": "(array_pop a)"}.get(op)
+    if place == "helper_void":
+        body = read or ("(array_set a i %s)" % new_src(k, old) if op == "array_set" else "(array_remove_at a i)")
+        L.append("fn touch(a: array<%s>, i: int) -> void {\n%s    %s\n}\nshadow touch { assert true }" % (
+            T, (src_line + "\n") if (k == "u8" and op == "array_set") else "", body))
+    if place == "helper_discard":
+        L.append("fn pick(a: array<%s>, i: int) -> %s {\n    return %s\n}\nshadow pick { assert true }" % (T, T, read))
+    L.append("fn t(%s: %s) -> int {" % (ix, "Color" if place == "enum_index" else "int"))
+    if k == "u8":
+        L.append(src_line)
     if cell.cons == "literal":
-        L.append("    let mut a: array<%s> = [%s]" % (T, ", ".join(elem_src(k, j) for j in range(cell.n))))
+        L.append("    let mut a: array<%s> = %s" % (T, literal_src(k, cell.n)))
     else:
         L.append("    let mut a: array<%s> = []" % T)
         for j in range(cell.n):
@@ -298,34 +439,42 @@ def program(cell):
         L.append("    set a (array_push a %s)" % elem_src(k, 0))
     if cell.prerem or cell.repush:
         L.append('    (println (+ "C08:NOW=" (int_to_string (array_length a))))')
-    L.append('    (println (+ "C08:BEFORE i=" (int_to_string i)))')
-    content = cell.content()
-    n = len(content)
-    i = cell.idx
-    old = content[i] if (cell.control and i is not None) else None
+    if place == "enum_index":
+        L.append('    (println "C08:BEFORE i=%d")' % i)
+    else:
+        L.append('    (println (+ "C08:BEFORE i=" (int_to_string i)))')
     core, exp = [], []
+    extra = cell.control or cell.env          # lines that check what an in-range access did
     wrap_v = (lambda e: "(idv %s)" % e) if place == "arg" else (lambda e: "(cond ((== i i) %s) (else %s))" % (e, elem_src(k, 0))) \
         if place == "cond" else (lambda e: e)
     wrap_n = (lambda e: "(idn %s)" % e) if place == "arg" else (lambda e: "(cond ((== i i) %s) (else -5))" % e) \
         if place == "cond" else None
-    if cell.op == "at":
-        core.append("let v: %s = %s" % (T, wrap_v("(at a i)")))
+    if place in ("discard", "discard_arg", "helper_void", "helper_discard"):
+        # the value (if any) is thrown away: nothing but the markers is printed
+        stmt = {"discard": read, "discard_arg": "(idv %s)" % read,
+                "helper_void": "(touch a %s)" % ("0" if op == "array_pop" else "i"),
+                "helper_discard": "(pick a %s)" % ("0" if op == "array_pop" else "i")}[place]
+        core.append(stmt)
+        core.append('(println "C08:VALUE")')
+    elif op in ("at", "array_get"):
+        core.append("let v: %s = %s" % (T, wrap_v(read)))
         core.append('(println "C08:VALUE")')
         core.append("(println %s)" % val_expr(k, "v"))
         if cell.control:
             exp = [elem_out(k, content[i])]
-    elif cell.op == "array_set":
+    elif op == "array_set":
         if place == "cond":
             core.append("if (== i i) {\n        (array_set a i %s)\n    } else {\n        (println \"C08:ELSE\")\n    }" % new_src(k, old))
         else:
-            core.append("(array_set a i %s)" % new_src(k, old))
+            core.append("(array_set a %s %s)" % (ix, new_src(k, old)))
         core.append('(println "C08:VALUE")')
         core.append("(println (array_length a))")
-        if cell.control:
-            core.append("let w: %s = (at a i)" % T)
+        if extra:
+            core.append("let w: %s = (at a %s)" % (T, ix))
             core.append("(println %s)" % val_expr(k, "w"))
+        if cell.control:
             exp = [str(n), new_out(k, old)]
-    elif cell.op == "array_remove_at":
+    elif op == "array_remove_at":
         if wrap_n:
             core.append("let m: int = %s" % wrap_n("(array_length (array_remove_at a i))"))
             core.append('(println "C08:VALUE")')
@@ -333,18 +482,19 @@ def program(cell):
             if cell.control:
                 exp = [str(n - 1)]
         else:
-            core.append("(array_remove_at a i)")
+            core.append("(array_remove_at a %s)" % ix)
             core.append('(println "C08:VALUE")')
             core.append("(println (array_length a))")
+            if extra and n - 1 > 0:
+                core.append("let w: %s = (at a 0)" % T)
+                core.append("(println %s)" % val_expr(k, "w"))
             if cell.control:
                 exp = [str(n - 1)]
                 if n - 1 > 0:
-                    core.append("let w: %s = (at a 0)" % T)
-                    core.append("(println %s)" % val_expr(k, "w"))
                     rest = content[:i] + content[i + 1:]
                     exp.append(elem_out(k, rest[0]))
     else:
-        core.append("let v: %s = %s" % (T, wrap_v("(array_pop a)")))
+        core.append("let v: %s = %s" % (T, wrap_v(read)))
         core.append('(println "C08:VALUE")')
         core.append("(println %s)" % val_expr(k, "v"))
         if cell.control:
@@ -368,7 +518,12 @@ def program(cell):
     L.append('    (println "C08:AFTER")')
     L.append("    return 0")
     L.append("}")
-    arg = "0" if i is None else idx_src(i)
+    if cell.env:
+        arg = ENV_ARG
+    elif place == "enum_index":
+        arg = ENUMS[i]
+    else:
+        arg = "0" if i is None else idx_src(i)
     entry = "t"
     if place == "nested":
         L.append("shadow t { assert true }")
@@ -479,6 +634,65 @@ def execute(flavor, sc, cell, seq):
     o.stderr = r.errtext()[-1500:]
     o.lines = o.text.split("\n")
     return o
+
+
+def execute_family(flavor, sc, cells, seq):
+    """env cells of one family: build once, one process per index (C08_IDX)"""
+    c0 = cells[0]
+    src = program(c0)[0]
+    d = sc.sub("%s/b%05d" % (c0.engine, seq))
+    engines.write_files(d, {"main.nano": src})
+    outs = []
+    skip = None
+    err = ""
+    if c0.engine == "native":
+        rb, built = engines.build_native(flavor, d, san=True)
+        if rb.timeout:
+            skip = "nanoc-timeout"
+        elif not built:
+            skip = "build:nanoc-sanitizer" if san_report(rb) else "build:" + engines.classify_nanoc_failure(rb)
+            err = rb.errtext()[-1500:]
+    elif c0.engine == "nano_vm":
+        rb = sh([flavor.nano_virt, "main.nano", "--emit-nvm", "-o", "main.nvm"], cwd=d, cpu=20, san=True)
+        if rb.timeout:
+            skip = "emit-timeout"
+        elif rb.rc != 0 or not os.path.exists(os.path.join(d, "main.nvm")):
+            skip = "emit-failed"
+            err = rb.errtext()[-1500:]
+    for c in cells:
+        o = Out(c)
+        o.src = src
+        outs.append(o)
+        if skip:
+            o.skip, o.stderr = skip, err
+            continue
+        env = {"C08_IDX": str(c.idx)}
+        for attempt in (0, 1):                         # a watchdog is re-run once before it is believed
+            if c.engine == "native":
+                e2 = dict(NATIVE_ENV)
+                e2.update(env)
+                r = sh([os.path.join(d, "main.bin")], cwd=d, cpu=10, san=True, env=e2)
+            elif c.engine == "nano_vm":
+                r = sh([flavor.nano_vm, "main.nvm"], cwd=d, cpu=10, san=True, env=env)
+            elif c.engine == "vm":
+                r = sh([flavor.nano_virt, "main.nano", "--run"], cwd=d, cpu=10, san=True, env=env)
+            else:
+                try:
+                    os.unlink(os.path.join(d, "main.bin"))
+                except OSError:
+                    pass
+                e2 = flavor.fastcc_env({"TMPDIR": d})
+                e2.update(env)
+                r = sh([flavor.nanoc, "main.nano", "-o", "main.bin", "--verbose"], cwd=d, cpu=120, san=True, env=e2)
+                o.binary = os.path.exists(os.path.join(d, "main.bin"))
+            if not r.timeout:
+                break
+        o.rc, o.sig, o.timeout = r.rc, r.sig, r.timeout
+        o.san = san_report(r)
+        o.text = r.text()
+        o.stderr = r.errtext()[-1500:]
+        o.lines = o.text.split("\n")
+    return outs
 
 
 def section(lines, a, b=None):
@@ -732,15 +946,44 @@ def native_sample(ctx, cells):
         return out
 
     for op in OPS:
-        for kind in KINDS:
+        for kind in ALL_KINDS:
+            old_kind = kind in KINDS          # the four new element kinds get a thinner sample
             for cons in CONS:
                 ns = [n for n in LENGTHS if ("main", op, kind, cons, n) in by_group]
-                for n in rng.sample(ns, 1 if op == "array_pop" else 2):
-                    chosen += pick(("main", op, kind, cons, n), 3)
-            chosen += pick(("main", op, kind, "never", 0), 3)
-            es = [g for g in by_group if g[:3] == ("main", op, kind) and g[3] in EMPTIED]
-            es.sort()
-            chosen += pick(es[(j + KINDS.index(kind)) % len(es)], 2)
+                for n in rng.sample(ns, 2 if (op != "array_pop" and old_kind) else 1):
+                    chosen += pick(("main", op, kind, cons, n), 3 if old_kind else 2)
+            chosen += pick(("main", op, kind, "never", 0), 3 if old_kind else 2)
+            if old_kind:
+                es = [g for g in by_group if g[:3] == ("main", op, kind) and g[3] in EMPTIED]
+                es.sort()
+                chosen += pick(es[(j + KINDS.index(kind)) % len(es)], 2)
+    return _with_controls(cells, chosen)
+
+
+def thin_new_kinds(cells, lengths):
+    """main grid, the four new element kinds: only the given lengths (and arrays emptied after one push)"""
+    return [c for c in cells if c.kind in KINDS or
+            (c.group[4] in lengths if c.group[3] not in EMPTIED else c.group[4] == 1)]
+
+
+def band_sample(ctx, engine, cells):
+    """quick tier: per (op, kind) two whole families - one whose length is not a capacity (0,1,5,7,9,15,17: the band
+    has indices strictly inside the spare part of the store) and one that fills its store (8, 16) - with rotating
+    construction; every index of the chosen families is run"""
+    rng = ctx.rng("band-sample", engine)
+    fams = {}
+    for c in cells:
+        if not c.control:
+            fams.setdefault(c.group, []).append(c)
+    chosen = []
+    j = 0
+    for op in BAND_OPS:
+        for kind in ALL_KINDS:
+            for lens in ((0, 1, 5, 7, 9, 15, 17), (8, 16)):
+                n = lens[(j + rng.randrange(len(lens))) % len(lens)]
+                cons = "never" if n == 0 else CONS[j % 2]
+                chosen += fams[("band", op, kind, cons, n)]
+            j += 1
     return _with_controls(cells, chosen)
 
 
@@ -778,7 +1021,7 @@ def describe(o):
 
 
 def key_for(c, observed):
-    eng = c.engine if c.place == "main" else "%s@%s" % (c.engine, c.place)
+    eng = (c.engine + ("@band" if c.env else "")) if c.place == "main" else "%s@%s" % (c.engine, c.place)
     if c.engine in ("vm", "nano_vm", "wrap"):
         return "%s|%s|%s|%s" % (eng, c.op, c.cls, observed)
     if c.engine == "native":
@@ -807,31 +1050,50 @@ def run(ctx):
             full[eng] = cells
             if eng == "native" and ctx.quick():
                 cells = native_sample(ctx, cells)
+            elif ctx.quick():
+                cells = thin_new_kinds(cells, (0, 1, 5, 8))
+            elif eng == "native":
+                cells = thin_new_kinds(cells, (0, 1, 2, 5, 8))
             plan[eng] = cells
         for eng in PLACE_ENGINES:
             cells = place_grid(eng)
             full[eng + "@place"] = cells
             plan[eng + "@place"] = place_sample(ctx, eng, cells, ctx.quick())
+        for eng in ENGINES:
+            cells = band_grid(eng)
+            full[eng + "@band"] = cells
+            plan[eng + "@band"] = band_sample(ctx, eng, cells) if ctx.quick() else cells
         PK = list(plan)
         uniq = {}
         for pk in PK:
             for c in plan[pk]:
                 uniq.setdefault(c.ident(), c)
 
-        jobs = [(c, k) for k, c in enumerate(uniq.values())]
+        jobs = [(c, k) for k, c in enumerate(uniq.values()) if not c.env]
+        fams = {}
+        for c in uniq.values():
+            if c.env:
+                fams.setdefault(fam_key(c), []).append(c)
+        jobs += [(fc, k) for k, fc in enumerate(fams.values())]
         # expensive engines first so that the pool drains evenly
-        jobs.sort(key=lambda t: {"native": 0, "eval": 1, "wrap": 2, "nano_vm": 3, "vm": 4}[t[0].engine])
+        order = {"native": 0, "eval": 1, "wrap": 2, "nano_vm": 3, "vm": 4}
+        jobs.sort(key=lambda t: (order[(t[0][0] if isinstance(t[0], list) else t[0]).engine], not isinstance(t[0], list)))
 
         def do(job):
             c, k = job
+            if isinstance(c, list):
+                return execute_family(asan, sc, c, k)
             o = execute(asan, sc, c, k)
             if o.timeout or (o.skip or "").endswith("timeout"):
                 o = execute(asan, sc, c, k)          # a watchdog is re-run once before it is believed
-            return o
+            return [o]
 
         results = {}
-        for o in pmap(do, jobs):
-            results[o.cell.ident()] = o
+        n_proc_cells = 0
+        for outs in pmap(do, jobs):
+            for o in outs:
+                results[o.cell.ident()] = o
+                n_proc_cells += 1
 
         hist = {}
         nonstop = {}              # every cell that was not stopped, by violation key (known or not)
@@ -911,7 +1173,7 @@ def run(ctx):
                 distinct.add(c.ident())
                 hk = "%s|%s|%s|%s" % (tag, c.op, c.cls, verdict)
                 hist[hk] = hist.get(hk, 0) + 1
-                if c.place != "main" or c.engine == "wrap":
+                if c.place != "main" or c.engine == "wrap" or c.env:
                     ph = "%s|%s" % (tag, verdict)
                     place_hist[ph] = place_hist.get(ph, 0) + 1
                 if verdict == "stopped":
@@ -1008,11 +1270,12 @@ def run(ctx):
             if v.startswith("sanitizer"):
                 ctx.note("char_at out of range (%s, %s): %s - outside C08's statement, recorded only" % (eng, cls, v))
 
-        n_proc = len(jobs) + 2 * len(acells) + len(ca_jobs)
+        n_proc = n_proc_cells + 2 * len(acells) + len(ca_jobs)
         if not ctx.violations:
             ctx.require(timeouts == 0, "%d cell(s) hit the watchdog twice" % timeouts)
             for pk, lo in (("vm", 0.9), ("nano_vm", 0.9), ("eval", 0.4), ("native", 0.5),
-                           ("vm@place", 0.8), ("nano_vm@place", 0.8), ("wrap@place", 0.6)):
+                           ("vm@place", 0.8), ("nano_vm@place", 0.8), ("wrap@place", 0.6),
+                           ("vm@band", 0.8), ("nano_vm@band", 0.8), ("native@band", 0.6)):
                 ctx.require(evaluated[pk] >= lo * executed[pk],
                             "%s: only %d of %d fault cells could be evaluated (controls failed / not built)" % (pk, evaluated[pk], executed[pk]))
             for place in GLOBAL_PLACES:
